@@ -1,6 +1,6 @@
 """C11 - OffsetDateTime / OffsetDate / OffsetTime / ZonedDateTime keep instant, local time, offset, calendar in step.
 
-Model checking, five exhaustive parts over explicit finite alphabets, each in lock-step with the int model
+Model checking, six exhaustive parts over explicit finite alphabets, each in lock-step with the int model
 vf/models/offsetref.py:
 
   odt      breadth-first exploration (depth 2) of every operation sequence over an operation alphabet (with_offset,
@@ -11,6 +11,8 @@ vf/models/offsetref.py:
            next to real transitions of the zones (offset must be re-derived from the zone).
   zlocal   ZonedDateTime(local, zone, offset) around every transition of each zone (inside / just outside gaps and overlaps,
            offsets before / after / unrelated): accepted exactly when the zone's offset at local - offset is that offset.
+  zstart   DateTimeZone.at_start_of_day / LocalDate.at_start_of_day_in_zone on the dates around every transition (midnight gaps
+           included) in ISO and non-ISO calendars: earliest instant of the date, zone and calendar retained, result.date == date.
   zclock   histories: one ZonedClock over one FakeClock per history, EVERY sequence of <= 3 clock movements (advance to the
            next transition, advance back to 1 ns before the current interval, +/-1 ns, negative auto-advance, reset to
            instants on / next to real transitions) with every getter read after each movement, for the zones with
